@@ -206,3 +206,41 @@ Example C08_ex_stored :
   stored_under (s"author") ex8 = [VStr (s"A"); VStr (s"B"); VStr (s"A"); VStr (s"C")] /\
   length (stored_under star ex8) = 16.
 Proof. vm_compute. repeat split. Qed.
+
+(* ================================================================== tie to the code (regenerated on every run)
+   Gen/Pure_gen.v is go2v's statement-by-statement translation of getSubKeyMap, hasSubKeys and Map.PathForKeyShortest in
+   /repo's CURRENT keyvalues.go.  They ARE the model functions the theorems above are about: for every package state
+   with a non-empty field separator, every sub-key list, every value, and every result of PathsForKey (an external call
+   of the translated PathForKeyShortest, instantiated here with any function). *)
+From Mxj Require Import Gen.Setters_gen Gen.PureSupport Gen.Pure_gen GenProofs.PureG2.
+
+Theorem C08_get_sub_key_map_code_is_model : forall pf st kv, g_fieldSep st <> [] ->
+  fn_getSubKeyMap pf st kv =
+    match get_sub_key_map pf (g_fieldSep st) kv with Ok m => Ret (Ok m) | Err e => Ret (Err e) | Panic => Crash end.
+Proof. exact get_sub_key_map_code_is_model. Qed.
+Print Assumptions C08_get_sub_key_map_code_is_model.
+
+Theorem C08_has_sub_keys_code_is_model : forall st v subkeys,
+  fn_hasSubKeys st v subkeys = Ret (has_sub_keys v subkeys).
+Proof. exact has_sub_keys_code_is_model. Qed.
+Print Assumptions C08_has_sub_keys_code_is_model.
+
+Theorem C08_shortest_code_is_model : forall (ext : entries -> str -> list str) st mv key,
+  fn_PathForKeyShortest ext st mv key = Ret (shortest (ext mv key)).
+Proof. exact shortest_code_is_model. Qed.
+Print Assumptions C08_shortest_code_is_model.
+
+Theorem C08_sub_key_code_no_panic : forall pf st kv v sk, g_fieldSep st <> [] ->
+  fn_getSubKeyMap pf st kv <> Crash /\ fn_hasSubKeys st v sk <> Crash.
+Proof. intros pf st kv v sk H. split; [exact (get_sub_key_map_code_no_panic pf st kv H)|exact (has_sub_keys_code_no_panic st v sk)]. Qed.
+Print Assumptions C08_sub_key_code_no_panic.
+
+Example C08_code_nonvacuous :
+  g_fieldSep gstate0 <> [] /\
+  fn_getSubKeyMap (fun x => Some x) gstate0 [s "id:7:num"; s "!hidden:*"; s "ok:true:bool"] =
+    Ret (Ok [(s "id", VFlt (s "7")); (s "!hidden", VStr (s "*")); (s "ok", VBool true)]) /\
+  fn_hasSubKeys gstate0 (VMap [(s "id", VFlt (s "7")); (s "ok", VBool true)])
+    [(s "id", VFlt (s "7")); (s "!hidden", VStr (s "*")); (s "ok", VBool true)] = Ret true /\
+  fn_hasSubKeys gstate0 (VMap [(s "id", VFlt (s "7")); (s "hidden", VNil)]) [(s "!hidden", VStr (s "*"))] = Ret false /\
+  fn_PathForKeyShortest (fun _ _ => [s "a.b.id"; s "configuration.id"; s "x.y.z.id"]) gstate0 [] (s "id") = Ret (s "configuration.id").
+Proof. vm_compute. repeat split. discriminate. Qed.
